@@ -192,27 +192,7 @@ func verif17ActionReachesEveryDistinctProducer() {
 		u.lookups["http://"+l+"/lookup?topic=t"] = body
 	}
 
-	var err error
-	switch a.name {
-	case "CreateTopicChannel":
-		err = ci.CreateTopicChannel("t", "c", lookupds)
-	case "DeleteTopic":
-		err = ci.DeleteTopic("t", lookupds, nil)
-	case "DeleteChannel":
-		err = ci.DeleteChannel("t", "c", lookupds, nil)
-	case "PauseTopic":
-		err = ci.PauseTopic("t", lookupds, nil)
-	case "UnPauseTopic":
-		err = ci.UnPauseTopic("t", lookupds, nil)
-	case "EmptyTopic":
-		err = ci.EmptyTopic("t", lookupds, nil)
-	case "PauseChannel":
-		err = ci.PauseChannel("t", "c", lookupds, nil)
-	case "UnPauseChannel":
-		err = ci.UnPauseChannel("t", "c", lookupds, nil)
-	case "EmptyChannel":
-		err = ci.EmptyChannel("t", "c", lookupds, nil)
-	}
+	err := verif17Do(ci, a, lookupds)
 	verifrt.Observe("ok", err == nil)
 	verifrt.Observe("posts", len(u.posts))
 
@@ -256,5 +236,125 @@ func verif17ActionReachesEveryDistinctProducer() {
 	if nL >= 2 && nK >= 2 {
 		verifrt.Reach("one-host-two-ports-registered-with-different-nsqlookupds",
 			hosts[0] == hosts[1] && ports[0] != ports[1] && len(replies[0].Producers) == 1 && len(replies[1].Producers) == 1)
+	}
+}
+
+// verif17Do: action a on topic "t" / channel "c" the way nsqadmin's handlers call it
+func verif17Do(ci *ClusterInfo, a verif17Action, lookupds []string) error {
+	switch a.name {
+	case "CreateTopicChannel":
+		return ci.CreateTopicChannel("t", "c", lookupds)
+	case "DeleteTopic":
+		return ci.DeleteTopic("t", lookupds, nil)
+	case "DeleteChannel":
+		return ci.DeleteChannel("t", "c", lookupds, nil)
+	case "PauseTopic":
+		return ci.PauseTopic("t", lookupds, nil)
+	case "UnPauseTopic":
+		return ci.UnPauseTopic("t", lookupds, nil)
+	case "EmptyTopic":
+		return ci.EmptyTopic("t", lookupds, nil)
+	case "PauseChannel":
+		return ci.PauseChannel("t", "c", lookupds, nil)
+	case "UnPauseChannel":
+		return ci.UnPauseChannel("t", "c", lookupds, nil)
+	}
+	return ci.EmptyChannel("t", "c", lookupds, nil)
+}
+
+// The same methods when a non-empty STRICT subset of the nsqlookupds does not answer /lookup
+// (404 / 500 / down: the read fails), the others do. Broadcast addresses symbolic as above, every
+// nsqd registered with any non-empty subset of the nsqlookupds:
+//   - every distinct nsqd that at least one ANSWERING nsqlookupd names as a producer of the topic
+//     receives the action's POST with exactly this topic / channel (an nsqd only the silent
+//     nsqlookupds know of cannot be known: nothing is required about it);
+//   - every answering nsqlookupd receives it when the action concerns the registry;
+//   - nothing is sent anywhere else (a silent nsqlookupd that still takes POSTs may get the
+//     registry change too).
+func VerifC17_ActionSurvivesPartialLookupFailure() {
+	verifrt.Atomic(verif17ActionSurvivesPartialLookupFailure)
+}
+
+func verif17ActionSurvivesPartialLookupFailure() {
+	u := verif17NewEnv()
+	ci := verif17ClusterInfo(u)
+	a := verif17Actions[verifrt.Choice("action", len(verif17Actions))]
+	nL := 2 + verifrt.Choice("extraLookupds", verifrt.Bound("extraLookupds", 1, 2))
+	nK := 1 + verifrt.Choice("nsqds", verifrt.Bound("nsqds", 2, 2))
+	nPorts := verifrt.Bound("ports", 1, 1)
+	lookupds := []string{"l0:4161", "l1:4161", "l2:4161"}[:nL]
+	// which nsqlookupds do not answer: any non-empty strict subset (bit i = nsqlookupd i)
+	silent := 1 + verifrt.Choice("silentLookupds", 1<<uint(nL)-2)
+
+	hosts := make([]string, nK)
+	ports := make([]int, nK)
+	addrs := make([]string, nK)
+	known := make([]bool, nK)
+	replies := make([]verif17Lookup, nL)
+	for i := range replies {
+		replies[i] = verif17Lookup{Channels: []string{"c"}, Producers: []*verif17Node{}}
+	}
+	for j := 0; j < nK; j++ {
+		hosts[j] = verif17Host("host")
+		ports[j] = 4151 + verifrt.Choice("port", nPorts)
+		addrs[j] = hosts[j] + ":" + strconv.Itoa(ports[j])
+		reg := 1 + verifrt.Choice("registeredWith", 1<<uint(nL)-1)
+		known[j] = reg&^silent != 0
+		for i := 0; i < nL; i++ {
+			if reg&(1<<uint(i)) != 0 {
+				replies[i].Producers = append(replies[i].Producers, &verif17Node{RemoteAddress: "10.0.0.1:1", Hostname: "h",
+					BroadcastAddress: hosts[j], TCPPort: 4150, HTTPPort: ports[j], Version: "1.3.0", Tombstones: []bool{false}, Topics: []string{"t"}})
+			}
+		}
+	}
+	for i, l := range lookupds {
+		if silent&(1<<uint(i)) == 0 {
+			body, _ := json.Marshal(replies[i])
+			u.lookups["http://"+l+"/lookup?topic=t"] = body
+		}
+	}
+
+	err := verif17Do(ci, a, lookupds)
+	verifrt.Observe("ok", err == nil)
+	verifrt.Observe("posts", len(u.posts))
+
+	qs := "topic=t"
+	if a.channel {
+		qs += "&channel=c"
+	}
+	var want []string
+	nKnown := 0
+	for j := 0; j < nK; j++ {
+		if !known[j] {
+			continue
+		}
+		nKnown++
+		e := "http://" + addrs[j] + "/" + a.uri + "?" + qs
+		want = append(want, e)
+		verifrt.Assert(verif17Has(u.posts, e), "action-reaches-every-nsqd-an-answering-nsqlookupd-names")
+	}
+	if a.lookupd {
+		for i, l := range lookupds {
+			es := []string{"http://" + l + "/" + a.uri + "?" + qs}
+			if a.name == "CreateTopicChannel" {
+				es = append(es, "http://"+l+"/topic/create?topic=t")
+			}
+			for _, e := range es {
+				want = append(want, e)
+				if silent&(1<<uint(i)) == 0 {
+					verifrt.Assert(verif17Has(u.posts, e), "action-reaches-every-answering-nsqlookupd")
+				}
+			}
+		}
+	}
+	for _, e := range u.posts {
+		verifrt.Assert(verif17Has(want, e), "action-reaches-nothing-else")
+	}
+	verifrt.Reach("first-nsqlookupd-silent", silent == 1)
+	verifrt.Reach("last-nsqlookupd-silent", silent == 1<<uint(nL-1))
+	verifrt.Reach("every-nsqd-known-through-the-answering-nsqlookupds", nKnown == nK)
+	if nK >= 2 {
+		verifrt.Reach("one-nsqd-known-only-to-a-silent-nsqlookupd", nKnown == nK-1)
+		verifrt.Reach("known-and-unknown-nsqd-on-one-host", known[0] != known[1] && hosts[0] == hosts[1])
 	}
 }
